@@ -1183,7 +1183,7 @@ def lexers_check(fns, table):
         else:
             decided.add('escaped_identifier_impl')
             if set(_lit(st[1][2][0])) != set(b' \t\r\n'):
-                report(f, ('ends-at-white-space', 'the identifier stops at %r instead of at blank, tab, CR, LF' % bytes(sorted(set(_lit(st[1][2][0]))))))
+                report(f, ('ends-at-white-space', 'the identifier stops at %r instead of at blank, tab, CR, LF' % bytes(sorted(set(_lit(st[1][2][0]))))), props=('C06', 'C04', 'C05', 'C11'))      # macro names may be escaped identifiers
     # ---- macro text: the body of a `define runs to the first line end that no backslash escapes
     f = table.get('macro_text')
     if f is None or not f.ast:
@@ -1301,6 +1301,34 @@ def lexers_check(fns, table):
                 n_, ', '.join((['ws(..)'] if 'ws' in names else []) + wrong))), props=('C11', 'C05'))
         else:
             decided.add(n_)
+    # ---- the groups of lines of a conditional: any number of items (none is legal, 22.6), up to the next `elsif / `else / `endif
+    for gname, stops in (('ifdef_group_of_lines', {b'`elsif', b'`else', b'`endif'}), ('ifndef_group_of_lines', {b'`elsif', b'`else', b'`endif'}),
+                         ('elsif_group_of_lines', {b'`elsif', b'`else', b'`endif'}), ('else_group_of_lines', {b'`endif'})):
+        f = table.get(gname)
+        if f is None or not f.ast:
+            undecided.append('%s not found (anchor lost)' % gname)
+            continue
+        st = _lexer_steps(f)
+        checked += 1
+        ok_shape = (len(st) == 1 and st[0][0] == 'call' and st[0][1][0] == 'var' and st[0][1][1] in ('many0', 'many1') and _is_call(st[0][2][0], 'preceded')
+                    and len(st[0][2][0][2]) == 2 and st[0][2][0][2][1] == ('var', 'source_description') and _is_call(st[0][2][0][2][0], 'peek') and _is_call(st[0][2][0][2][0][2][0], 'not'))
+        got = None
+        if ok_shape:
+            inner = st[0][2][0][2][0][2][0][2][0]
+            if _is_call(inner, 'tag') and _lit(inner[2][0]) is not None:
+                got = {_lit(inner[2][0])}
+            elif _is_call(inner, 'alt'):
+                parts = inner[2][0][1] if inner[2] and inner[2][0][0] == 'tuple' else inner[2]
+                if all(_is_call(x, 'tag') and _lit(x[2][0]) is not None for x in parts):
+                    got = set(_lit(x[2][0]) for x in parts)
+        if got is None:
+            undecided.append('%s: not of the form many0(preceded(peek(not(<tags>)), source_description))' % gname)
+            continue
+        decided.add(gname)
+        if st[0][1][1] == 'many1':
+            report(f, ('may-be-empty', 'the group is lexed with many1: a conditional branch without any item is legal (22.6) and is now rejected'), props=('C04', 'C11'))
+        if got != stops:
+            report(f, ('ends-at-the-next-branch-keyword', 'the group stops in front of %s instead of %s' % (sorted(got), sorted(stops))), props=('C04', 'C11'))
     # ---- comment = one_line_comment | block_comment
     f = table.get('comment')
     if f is not None and f.ast:
